@@ -25,6 +25,18 @@ __CPROVER_assigns(pipe_cmd, optind, optarg, g_tok_calls, g_tok_bad, g_exit_statu
 __CPROVER_ensures(0 == 1)
 ;
 
+/* BOUNDED twin for the content of stdin tokens (stubs/tools_env.c, -DVERIF_STDIN_MODEL): at most 2 arguments,
+ * 1 option, 2 stdin lines of at most 3 characters; no loop contracts, so it does not depend on how the reading
+ * loop is written (fgets into a buffer, getline, ...) */
+extern unsigned g_lines, g_line_len; extern const char *g_line_buf; extern char g_line_copy[8];
+int contract_C20_jwt_verify_main_stdin(int argc, char *argv[])
+__CPROVER_requires(argc >= 1 && argc <= 2)
+__CPROVER_requires(__CPROVER_is_fresh(argv, ((size_t)argc + 1) * sizeof(char *)))
+__CPROVER_requires(g_tok_calls == 0 && g_tok_bad == 0 && optind == 1 && g_lines == 0 && g_line_buf == NULL && g_getopt_calls == 0)
+__CPROVER_assigns(pipe_cmd, optind, optarg, g_tok_calls, g_tok_bad, g_exit_status8, g_getopt_calls, g_tok_last, g_lines, g_line_buf, g_line_len, __CPROVER_object_whole(g_line_copy))
+__CPROVER_ensures(0 == 1)
+;
+
 /* option tables of the other tools: main is run up to its first getopt_long() call, whose
  * CHECKED precondition (stubs/tools_env.c, -DVERIF_GETOPT_STOP ends the run there) compares
  * the short option string with the long-option table. */
